@@ -57,7 +57,14 @@ def run(run):
     for vtag, cc, srcs in (("unity", ["gcc", "-std=gnu11", "-O2", "-g", "-DLIBRFN_VERIF", nflag, "-include", os.path.join(REPO, "librfn/rand.c")], []),
                            ("lto", ["gcc", "-std=gnu11", "-O2", "-flto", "-g", "-DLIBRFN_VERIF", nflag], ["librfn/rand.c"]),
                            ("O3", ["gcc", "-std=gnu11", "-O3", "-g", "-DLIBRFN_VERIF", nflag, "-include", os.path.join(REPO, "librfn/rand.c")], [])):
-        exev = build_driver(run, "rand_drv_" + vtag, "rand_drv.c", srcs, cc=cc)
+        try:
+            exev = build_driver(run, "rand_drv_" + vtag, "rand_drv.c", srcs, cc=cc)
+        except Infra as e:
+            if "-include" not in cc:
+                raise
+            # the generator's private names may clash with the driver's when both share a translation unit: not a verdict
+            run.notes.append("%s build not possible (%s); the LTO build covers whole-program optimisation" % (vtag, str(e).strip().splitlines()[-1][:160]))
+            continue
         trv = exec_script(run, exev, [], "Vectors %d %d\nSweep %d\n" % (run.seed + 1, 3000, NCPU), run.path("rand-%s.ndjson" % vtag), vtag + " build vectors+sweep", timeout=900)
         check_trace(run, vtag + "-build-vectors+sweep", "TraceRand", "TraceRand.cfg", trv, timeout=900)
     # the same source built for an ILP32 target (gcc -m32, freestanding): vectors validated by TLC, then all 2^31-2 states
